@@ -333,11 +333,23 @@ func (f *flow) addPredicateOutput() *predicateOutput {
 	return np
 }
 
+// checkContext reports a context argument that is the literal nil.
+//
+// The generated code binds the argument to a variable with "ctx := <arg>",
+// which does not compile for an untyped nil, and the scheduler cannot run
+// jobs with a nil context anyway.
+func (c *compiler) checkContext(directive string, ctx ast.Expr) {
+	if tv, ok := c.info.Types[ctx]; ok && tv.IsNil() {
+		c.errf(c.nodePosition(ctx), "%v expects a context but got nil: use context.Background() or context.TODO()", directive)
+	}
+}
+
 func (c *compiler) compileFlow(file *ast.File, call *ast.CallExpr) *flow {
 	if len(call.Args) == 1 {
 		c.errf(c.nodePosition(call), "cff.Flow expects at least one function")
 		return nil
 	}
+	c.checkContext("cff.Flow", call.Args[0])
 
 	flow := flow{
 		Ctx:       call.Args[0],
